@@ -6,6 +6,7 @@ import PMV.Proofs.Spacing
 import PMV.Proofs.Numbers
 import PMV.Proofs.LayoutTable
 import PMV.Proofs.LayoutPlain
+import PMV.Proofs.LayoutTidy
 /-
   C02 — Printed source re-parses to exactly the same syntax tree.
   Proved here, for every well-formed expression tree of the modelled AST (unbounded depth):
@@ -79,6 +80,13 @@ theorem layout_as_specified_plain (m : Module) (h : Spec.Layout.plainL Generated
     Spec.Layout.machineLayout (moduleToks Generated.precTable Generated.stmtTable m)
       = Spec.Layout.emitModule Generated.precTable Generated.stmtTable m :=
   layout_as_specified m (Spec.Layout.okL_of_plain _ _ m.body h)
+
+/-- T02.4b: the specified layout of a non-empty module starts and ends with a real token and never has two layout tokens in a
+    row: the printed text has no empty line, no `;;`, no `;` before a line break and no trailing separator. -/
+theorem layout_tidy (m : Module) (hok : Spec.Layout.okL Generated.precTable Generated.stmtTable m.body = true) (hne : m.body ≠ []) :
+    Spec.Layout.Tidy (Spec.Layout.emitModule Generated.precTable Generated.stmtTable m) ∧
+    Spec.Layout.noAdj (Spec.Layout.emitModule Generated.precTable Generated.stmtTable m) = true :=
+  ⟨Spec.Layout.module_tidy _ _ m hok hne, Spec.Layout.tidy_noAdj (Spec.Layout.module_tidy _ _ m hok hne)⟩
 
 /-- T02.5 (characters): when moreover no token text ends in a character that `newline` strips or is empty (`textOK`),
     the printed text is the concatenation of the characters of a list of layout tokens (a token with the space the spacing
